@@ -54,6 +54,20 @@ UNITS = [sqv(n) for n in ('emplace', 'pop', 'size', 'empty')] + \
         [qv(n, QV_RX[n], sqv=QV_SQV.get(n, ())) for n in ('ctor', 'push', 'pop', 'unblock_pop', 'size', 'empty', 'dtor')] + \
         [lemma('qi', QI_RX, QI_TYPES, QI_DEF, 'cocls::queue<int>'), conservation('qi', QI_RX, QI_TYPES, QI_DEF),
          lemma('qv', QV_RX, QV_TYPES, QV_DEF, 'cocls::queue<void>'), conservation('qv', QV_RX, QV_TYPES, QV_DEF)]
+# ---- move-only payload (drivers/c09_mo_item.h): queue<mo_item>, containers / promise<mo_item> of lib/model_awq_mo.c run the REAL special members of the item
+QMT = 'cocls::queue<mo_item, cocls::primitives::std_queue, cocls::primitives::std_queue, std::mutex>'
+QM_TYPES = dict(COMMON_T, QM=QMT, MO='mo_item', PRM='cocls::promise<mo_item>', FUTM='cocls::future<mo_item>', MQ_T=stdq('mo_item').replace('<mo_item >', '<mo_item>'), WQM_T=stdq('cocls::promise<mo_item>'))
+QM_GLOBALS = dict(GLOBALS, MO_LIVE='_ZN7mo_item4liveE', MO_DEAD='_ZN7mo_item11dead_valuedE', MO_DEAD_TAG='_ZN7mo_item13last_dead_tagE')
+QM_BOUNDARY = [r'^(decltype\(auto\) )?std::queue<', r'^(cocls::suspend_point<bool> )?cocls::promise<mo_item>::', r'^cocls::suspend_point<bool>::~suspend_point\(\)$']
+MO_ROOTS = [r'^mo_item::mo_item\(mo_item&&\)$', r'^mo_item::~mo_item\(\)$']
+QM_RX = {'push': r'^cocls::suspend_point<bool> cocls::queue<mo_item, .*>::push<mo_item>\(mo_item&&\)$', 'pop': rx(QMT, r'pop\(\)'), 'dtor': rx(QMT, r'~queue\(\)')}
+def qm(name, **kw):
+    r = QM_RX[name]
+    d = dict(name='qm_' + name, driver='c09_queue_mo.cpp', roots=[r] + MO_ROOTS, names={'qm_' + name: r}, types=QM_TYPES, globals=QM_GLOBALS, boundary=QM_BOUNDARY,
+             lib=LIBS + ['model_awq_mo.c'], spec=['C09/q_spec.h', 'C09/qm_spec.h', 'C09/h_qm.c'], harness='h_qm_' + name, enforce='qm_' + name, defines=['CV_MODEL_MO 1'],
+             under_contract=['cocls::queue<mo_item>::' + name + ' (move-only item: object identity, moved-from state, live-instance conservation)'])
+    d.update(kw); return d
+UNITS += [qm('push'), qm('pop'), qm('dtor')]
 META = dict(
     level='proof',
     level_text=('Every public member of cocls::queue<int> and cocls::queue<void> (constructor, push, pop incl. the future-constructor lambda, unblock_pop, size, empty, destructor) and of '
@@ -63,19 +77,27 @@ META = dict(
                 'exactly the oldest waiting pop with exactly e (or does nothing, result false); the destructor drops every parked promise exactly once and resolves nobody; queue<void> counts '
                 '(pop on count 0 never wraps). History lemmas over these contracts (every call replaced by its contract, UNBOUNDED loop with invariant, two tagged items, two tagged pops, event counters) '
                 'prove: each pushed item is delivered to exactly one pop (never lost / duplicated; conservation pushes == handed + delivered + |Q|), delivery order == push order, waiting pops are served '
-                'in arrival order, a waiting pop leaves the wait queue only by a push, by unblock_pop (oldest first) or by destruction, and for queue<void> releases == handed + acquired + count.'),
+                'in arrival order, a waiting pop leaves the wait queue only by a push, by unblock_pop (oldest first) or by destruction, and for queue<void> releases == handed + acquired + count. '
+                'MOVE-ONLY ITEMS (units qm_push / qm_pop / qm_dtor on cocls::queue<mo_item>, mo_item = drivers/c09_mo_item.h: deleted copy, int tag, per-object moved-from count, global counters of live instances '
+                'and of instances destroyed while still carrying their value; its REAL move constructor / destructor are translated and run by the code under contract and by the container / promise models): in addition '
+                'to the clauses above, the object that reaches the consumer (hand-over) or the item sequence (stored) carries the pushed tag and is not moved-from, the pushed object is moved from exactly once, '
+                'live instances are conserved (push + 1, pop + 0 on both paths), no instance that still carries its value is destroyed by push or pop, and ~queue() with items inside destroys exactly those items '
+                '(live - |Q|: none leaked). The same per-operation balances are confirmed on the real std::queue / future code by replay/c09_mo_queue.cpp (g++, ASan/UBSan).'),
     level_note=('Sequential contracts per critical section: "every interleaving of producers and consumers" is reduced to "every sequential history of critical sections" by lock-based linearisability - '
                 'machine-checked part: every access to the item / waiter containers (and to the std_queue<void> counter) happens while the queue mutex is held, nothing guarded is read before lock() or after '
                 'unlock(), exactly one critical section per operation, parked promises are resolved and coroutines resumed only after unlock; argued part: the promise resolved outside the lock is a local '
                 'object that was moved out of the wait queue under the lock, so no other thread can reach it. No real threads are run (the "up to 3 producer and 3 consumer threads" of the statement is '
                 'covered by this reduction, not by scheduling). promise<T>/future<T> are ABSTRACT: a resolution is a log entry (which promise, value / exception / dropped, how often, under the lock or not); '
-                'that a dropped promise surfaces as await_canceled_exception and that a resolved future wakes its awaiter are C01/C02, not re-proved here. Only T=int and T=void with the default '
-                'std_queue/std::mutex policies are instantiated; single_item_queue and no_lock are not covered. Conservation sums are derived from the lockstep counting invariant by a separate '
+                'that a dropped promise surfaces as await_canceled_exception and that a resolved future wakes its awaiter are C01/C02, not re-proved here. T=int, T=void and the move-only T=mo_item (push, pop, destructor; '
+                'constructor, unblock_pop, size, empty do not touch items and are verified for int only; the history lemmas are over the int contracts) with the default '
+                'std_queue/std::mutex policies are instantiated; single_item_queue and no_lock are not covered. For mo_item the value inside the consumer\'s future is the model object gh_mo.deliv (move-constructed once from the '
+                'argument of promise::operator() by the real move constructor); what future<mo_item> later does with it (value(), ~future) is C01/C18 territory. Conservation sums are derived from the lockstep counting invariant by a separate '
                 'arithmetic lemma that needs an SMT back end (z3) - solver-specific.'),
     technique=('CBMC 6.11 code contracts (requires/ensures/assigns) enforced per function with goto-instrument --dfcc on the C translation (ir2c) of the clang IR of the real queue.h; std containers and '
                'promise operations as assumed-contract boundary models with a ghost-index element view; history lemmas = loop contracts over replaced contracts; z3 for pure linear arithmetic'),
     trusted_base=['assumed contract: std::queue<int>, std::queue<promise<T>> are unbounded FIFOs; front()/pop() need a non-empty queue; emplace moves the promise in; pop()/~queue() destroy elements (lib/model_awq_containers.c)',
                   'abstract boundary: cocls::promise<T> move/construct/operator()/set_exception/destructor and suspend_point<bool>::~suspend_point as ghost-logging stubs (lib/model_awq_promise.c); future.h internals not translated',
+                  'assumed contract (move-only units): std::queue<mo_item> / std::queue<promise<mo_item>> FIFOs whose emplace/push move-CONSTRUCT the element with the real mo_item move constructor, whose pop() runs the real destructor on the front element and whose ~queue() destroys every remaining element; promise<mo_item>::operator()(mo_item&&) move-constructs the future\'s value exactly once; untracked elements materialise as objects that carry some value - justified by the obligation that no moved-from object is ever put in (lib/model_awq_mo.c)',
                   'primitive: std::mutex via pthread_mutex_lock/unlock with lock-discipline obligations (lib/model_mutex.c)',
                   'rely/guarantee reduction of interleavings to sequential histories of critical sections (argued, DESIGN 3.5)'],
     assumptions=['ghost positions / event counters are mathematical integers (never wrap: fewer than 2^62 operations); queue<void> count < 2^62',
